@@ -54,11 +54,12 @@ def alphabet(cls):
     if cls in FOURIER:
         ops += [('window', 'hamming'), ('window', 'hann'), ('window', 'same')]
     if cls == 'pcorrelogram':
-        ops += [('lag', 8), ('lag', 'same')]
+        ops += [('lag', 8), ('lag', 'same'), ('lag', 40)]
     if cls == 'parma':
-        ops += [('lag', 14)]
+        ops += [('lag', 14), ('lag', 40)]
     if cls in ('pburg', 'pyule', 'pcovar', 'pmodcovar', 'pminvar', 'parma', 'pmusic', 'pev'):
-        ops += [('ar_order', 5), ('ar_order', 'same')]
+        # 40 exceeds every record length used here: the estimate cannot be computed until another value is assigned
+        ops += [('ar_order', 5), ('ar_order', 'same'), ('ar_order', 40)]
         if cls != 'pminvar':            # minvar() insists on a builtin int (errors.is_positive_integer)
             ops += [('ar_order', 'np6')]
     if cls == 'pma':
@@ -213,7 +214,17 @@ def run_case(c, d):
                     q.sides = s
                 _ = q.psd
             except Exception:
-                c.discard('reference-raised-too')
+                # the assigned values admit no estimate: a fresh object raises, so must every read of this one -
+                # a failed recomputation must not leave the previous estimate behind as if it were current
+                c.count('reads-that-raised-like-the-reference')
+                try:
+                    again = np.array(live.psd, copy=True)
+                except Exception:
+                    c.ok('read:raises-again-while-no-estimate-exists')
+                    return False
+                c.fail('read:raises-again-while-no-estimate-exists',
+                       {'history': history[-14:], 'state': dict(st), 'first_read_raised': repr(exc)[:200],
+                        'second_read_returned_values': int(np.size(again))}, feats)
                 return False
             c.exception('read', exc, feats)
             return False
